@@ -22,7 +22,10 @@ func c19ArgvCase(c *Ctx, cs *Case) {
 		if f == "" {
 			continue
 		}
-		if strings.HasSuffix(f, "/") {
+		if i := strings.Index(f, "->"); i >= 0 {
+			// "name->target": a symbolic link (target relative to the link's directory)
+			os.Symlink(f[i+2:], filepath.Join(dir, f[:i]))
+		} else if strings.HasSuffix(f, "/") {
 			os.MkdirAll(filepath.Join(dir, f), 0o755)
 		} else {
 			os.WriteFile(filepath.Join(dir, f), []byte(marker), 0o644)
@@ -178,6 +181,14 @@ func c19Run(c *Ctx) {
 		{"three-args", "usage64", []string{"a.bn", "b.bn", "c.bn"}, []string{"a.bn", "b.bn", "c.bn"}, ""},
 		{"two-args-second-missing", "usage64", []string{"a.bn", "nope.bn"}, []string{"a.bn"}, ""},
 		{"two-args-first-bad-ext", "usage64", []string{"a.txt", "b.bn"}, []string{"a.txt", "b.bn"}, ""},
+		// the name given on the command line decides, not what it points to
+		{"link.bn-to-file.out", "runs", []string{"latest.bn"}, []string{"build/", "build/generated.out", "latest.bn->build/generated.out"}, ""},
+		{"link-without-ext-to-file.bn", "usage64", []string{"current"}, []string{"versions/", "versions/v2.bn", "current->versions/v2.bn"}, ""},
+		{"link.txt-to-file.bn", "usage64", []string{"notes.txt"}, []string{"prog.bn", "notes.txt->prog.bn"}, ""},
+		{"link.bn-to-file.bn", "runs", []string{"l.bn"}, []string{"real.bn", "l.bn->real.bn"}, ""},
+		{"link.bn-chain", "runs", []string{"l1.bn"}, []string{"real.txt", "l2->real.txt", "l1.bn->l2"}, ""},
+		{"file.bn-in-linked-dir", "runs", []string{"ld/a.bn"}, []string{"rd/", "rd/a.bn", "ld->rd"}, ""},
+		{"dangling-link.bn", "unreadable", []string{"dang.bn"}, []string{"dang.bn->nowhere.bn"}, ""},
 		{"missing-file", "unreadable", []string{"missing.bn"}, nil, ""},
 		{"directory-named-d.bn", "unreadable", []string{"d.bn"}, []string{"d.bn/"}, ""},
 		{"missing-dir", "unreadable", []string{"nodir/a.bn"}, nil, ""},
@@ -369,7 +380,7 @@ func c19Run(c *Ctx) {
 func init() {
 	register(&CheckDef{
 		ID:          "C19",
-		Rule:        "runs of the plain binary: 21 command-line shapes (no argument, .bn names incl. '.bn', dotted, spaced and Bangla names, nested directory; .BN, .bn.txt, no extension, near-miss extensions; 2 and 3 arguments whose scripts would print a marker; missing file, directory named d.bn; thorough: open failures injected with strace); every runtime fault of C06's pool at top level and inside a function; programs of every outcome class (clean, runtime error of 21 kinds, syntax error of 6 kinds, lexical error of 2 kinds, failing ইনপুট) with 0-4 ইনপুট calls with and without prompts x seeded stdin contents of 0-6 lines from {x, ' padded ', empty, Bangla digits, 'a b', tabs} with LF/CRLF and with or without a final newline; errors on the first/middle/last line of an 11-line program; ইনপুট corner cases (unterminated last line, blank-only lines, CRLF, 40 consecutive reads, 12 kB line, reads in a loop, read after an error). Each (exit status, stdout, stderr) is compared with the class and output refborno assigns (prompts and trimmed input lines included); in-process replays count stdin reads with the InputRead hook. Non-trivial = distinct decided (program, stdin) or argv shape.",
+		Rule:        "runs of the plain binary: 28 command-line shapes (symbolic links whose own name and target disagree about .bn; no argument, .bn names incl. '.bn', dotted, spaced and Bangla names, nested directory; .BN, .bn.txt, no extension, near-miss extensions; 2 and 3 arguments whose scripts would print a marker; missing file, directory named d.bn; thorough: open failures injected with strace); every runtime fault of C06's pool at top level and inside a function; programs of every outcome class (clean, runtime error of 21 kinds, syntax error of 6 kinds, lexical error of 2 kinds, failing ইনপুট) with 0-4 ইনপুট calls with and without prompts x seeded stdin contents of 0-6 lines from {x, ' padded ', empty, Bangla digits, 'a b', tabs} with LF/CRLF and with or without a final newline; errors on the first/middle/last line of an 11-line program; ইনপুট corner cases (unterminated last line, blank-only lines, CRLF, 40 consecutive reads, 12 kB line, reads in a loop, read after an error). Each (exit status, stdout, stderr) is compared with the class and output refborno assigns (prompts and trimmed input lines included); in-process replays count stdin reads with the InputRead hook. Non-trivial = distinct decided (program, stdin) or argv shape.",
 		Assumptions: []string{"usage / bad-extension messages may go to either stream (the property asks for 'a message')", "ইনপুট at end of stdin is out of domain"},
 		Run:         c19Run,
 		Judge:       c19Judge,
